@@ -223,9 +223,10 @@ class StoreWatch(Monitor):
                     preds.append('orphaned_job_of_replaced_proxy')
                 if set(diffs) <= {'is_held', 'is_runahead', 'is_queued'} and any(
                         d[3] in ('force_trigger_tasks', 'set')
-                        and d[4].get('flow') and d[4]['flow'] != ['none']
                         and itask.identity in d[4].get('tasks', [])
-                        and itask.identity in d[6]
+                        and (d[3] == 'force_trigger_tasks' or (
+                            d[4].get('flow') and d[4]['flow'] != ['none']
+                            and itask.identity in d[6]))
                         for d in getattr(self.res, 'commands_done', [])):
                     # a trigger/set with --flow=... on a task that was already
                     # pooled builds a second proxy for the same ID (held /
@@ -234,9 +235,15 @@ class StoreWatch(Monitor):
                     # pooled proxy and it is discarded
                     preds.append('flow_command_on_pooled_task_left_shadow_state')
                 cyc_, name_ = itask.identity.split('/')
-                if not preds and any(
+                if not preds and set(diffs) <= {
+                        'state', 'is_held', 'outputs', 'is_queued',
+                        'is_runahead'} and any(
                         k[0] == cyc_ and k[1] == name_
-                        for k in self.h.world.dup_launches) and any(
+                        for k in self.h.world.dup_launches):
+                    # two jobs were launched under one job ID for this task:
+                    # one of them belongs to a proxy that has left the pool
+                    preds.append('orphaned_job_of_replaced_proxy')
+                if not preds and any(
                         d[3] == 'force_trigger_tasks' and d[4].get('flow')
                         and d[4]['flow'] != ['none']
                         and itask.identity in d[4].get('tasks', [])
